@@ -217,12 +217,8 @@ where
                     if !keep_alive { continue; }
                     debug!("checking that keep-alive packet was received");
                     if self.keep_alive_id.is_some() {
-                        let reason = self.localization_adapter.localize(
-                            self.client_locale.as_deref(),
-                            "disconnect_timeout",
-                            &[]
-                        ).await?;
-                        self.send_packet(conf_out::DisconnectPacket { reason }).await?;
+                        // the client is told why in `listen`: nothing is awaited between this decision
+                        // and the return, such that a completing adapter call cannot cancel it half-way
                         return Err(Error::MissedKeepAlive);
                     }
                     debug!("sending next keep-alive packet");
@@ -342,6 +338,22 @@ where
 
     #[instrument(skip_all)]
     pub async fn listen(&mut self) -> Result<(), Error> {
+        let result = self.handle().await;
+
+        // a missed keep-alive ends the connection: tell the client why (outside of any `select!`)
+        if matches!(result, Err(Error::MissedKeepAlive)) {
+            let reason = self
+                .localization_adapter
+                .localize(self.client_locale.as_deref(), "disconnect_timeout", &[])
+                .await?;
+            self.send_packet(conf_out::DisconnectPacket { reason }).await?;
+        }
+
+        result
+    }
+
+    #[instrument(skip_all)]
+    async fn handle(&mut self) -> Result<(), Error> {
         // handle handshake
         debug!("awaiting handshake packet");
         let handshake = match_packet! { self,
